@@ -43,6 +43,9 @@ func RandomHistories(w *WorldJSON, seed int64, n, depth int, routers []string, f
 			if focus == "logout" && rng.Intn(2) == 0 {
 				cfg.Dyn = true
 			}
+			if focus == "issue" && rng.Intn(3) == 0 {
+				cfg.MidRot = true
+			}
 			if focus == "issue" {
 				cfg.Alg = []string{"ES256", "RS256", "ES384", "EdDSA", "ES512", "PS256", "RS384"}[rng.Intn(7)]
 				cfg.Policy.DefType = []string{"", "refresh", "access", "id"}[rng.Intn(4)]
@@ -111,6 +114,12 @@ func RandomHistories(w *WorldJSON, seed int64, n, depth int, routers []string, f
 				case "CodeExchange", "Refresh", "ClientCreds", "JWTBearer", "TokenExchange", "Poll":
 					if rng.Intn(7) == 0 {
 						args["gtInQuery"] = true
+					}
+				}
+				if cfg.MidRot && rng.Intn(5) == 0 {
+					switch op {
+					case "Callback", "CodeExchange", "Refresh", "Poll", "TokenExchange", "JWTBearer", "ClientCreds":
+						args["rotateMid"] = true
 					}
 				}
 				if fm := faultMethods[op]; len(fm) > 0 && (rng.Intn(10) == 0 || ((focus == "faults" || focus == "authorize") && rng.Intn(3) == 0)) {
